@@ -17,7 +17,7 @@
 import Compio.Model.Common
 import Compio.Model.AsyncifyPool
 
-open Compio Compio.Pool
+open Compio Compio.Asyncify
 
 namespace C17
 
@@ -199,6 +199,7 @@ def step (m : Mode) (line : String) : Mode × String :=
     match l.toNat? with
     | some l => (.hist (some (Spec.sinit l)), "ok")
     | none => (m, "bad-op")
+  | "bad" :: _, .hist _ => (m, "violation")   -- a monitor fired while the history was recorded (no model content)
   | ["end"], .hist t =>
     match t with
     | some t =>
